@@ -62,11 +62,11 @@ def verify(name):
     res = {}
     # some demos still name the worktree they were written in (/tmp/wt-<property>): point that name at this scratch tree
     os.environ["REPROC_SRC"] = wt
-    alias = "/tmp/wt-" + m["property"]
-    made_alias = False
-    if not os.path.exists(alias):
-        os.symlink(wt, alias)
-        made_alias = True
+    made_alias = []
+    for alias in ("/tmp/wt-" + m["property"], "/tmp/w3-" + m["property"]):
+        if not os.path.exists(alias):
+            os.symlink(wt, alias)
+            made_alias.append(alias)
     try:
         cxx = "-DREPROC++=ON" if "reproc++" in open(patch).read() else ""
         # the demos locate the sources relative to themselves: <tree>/mutant/demo/run.sh
@@ -94,7 +94,7 @@ def verify(name):
     finally:
         sh("git -C %s worktree remove --force %s" % (REPO, wt))
         shutil.rmtree(wt, ignore_errors=True)
-        if made_alias:
+        for alias in made_alias:
             os.unlink(alias)
     m["verified_by_me"] = res
     m["verified_ok"] = all(res.get(k) for k in ("patch_applies", "mutant_builds", "tests_pass_with_change", "demo_passes_without_change", "demo_fails_with_change"))
